@@ -423,7 +423,7 @@ func zzChunks(tag string, n, sizePat, fill int, base int) [][]byte {
 		var c []byte
 		switch fill {
 		case 0:
-			c = make([]byte, sz)
+			c = make([]byte, sz, sz+2) // capacity differs from length, as with real splitters
 			for j := range c {
 				c[j] = byte(base + 7*i + 3*j + 1)
 			}
